@@ -36,6 +36,9 @@ class Main {
         _choices = next();
       } else if (a == "--out") {
         _out = std::fopen(next().c_str(), "w");
+      } else if (a == "--yield-at") {
+        const std::string v = next();
+        g.opt.yield_at = v == "after" ? 1 : (v == "both" ? 2 : 0);
       } else if (a == "--no-yields") {
         g.opt.yields = false;
       } else if (a == "--trace-unknown") {
